@@ -599,6 +599,9 @@ func (vc *VC) verifyRun(fn *ssa.Function, fc *FuncContract, key, caseName string
 			continue
 		}
 		bound := vc.bindResults(fn, o.Ret)
+		if fc.Delegates != nil && caseName == "" {
+			vc.addObligation(o.St, "post", "delegates.called-exactly-once", "", TBool(o.St.delegCalls == 1), vc.curProps)
+		}
 		for _, c := range fc.Clauses {
 			if c.Case != caseName {
 				continue
